@@ -85,6 +85,15 @@ def run(ctx, log):
             add(t, "truncation")
     for _ in range(1000 if ctx.quick else 20000):
         add(noise.unicode_noise(rng, rng.randint(1, 40)), "noise")
+    for _ in range(3000 if ctx.quick else 60000):
+        add(noise.char_soup(rng, rng.randint(1, 14)), "char-soup")
+    for _ in range(1500 if ctx.quick else 30000):
+        add(noise.glue_tokens(rng, noise.random_tokens(rng, rng.randint(2, 8), vocab)), "glued-tokens")
+    # complete: every text of up to 5 characters over the number alphabet (digits and dots fuse in many ways)
+    import itertools
+    for n in range(1, 6):
+        for t in itertools.product("12.", repeat=n):
+            add("".join(t), "number-soup")
     log("%d inputs" % len(inputs))
     obs = vlib.nlh("eval", ["20000 " + vlib.hexs(s) for s in inputs], tag="c05", timeout=60)
     seen_known = set()
